@@ -456,6 +456,9 @@ impl LocalPeerService {
                     Self::send_event(event_sender, RemoteEvent::RoomDefinitionChanged(room.id))
                         .await
                         .map_err(|_| crate::Error::TimeOut("RoomDefinitionChanged".to_string()))?;
+                } else {
+                    //a peer that has been removed from the room must not read it anymore
+                    inbound_query_service.remove_allowed_room(room.id);
                 }
             }
             LocalEvent::RoomDataChanged(rooms) => {
